@@ -62,7 +62,7 @@ CLAIMED = {
             "exactly its index range with the plotfile's component count), ReaderR.read_inside_header (a recorded offset anywhere inside a FAB's header line whose remaining text still parses reads "
             "exactly that FAB's payload) on top of shapeOK_sound; every corrupted instance default validation accepts is read back in full "
             "and compared with the FAB whose header names the box's range.",
-            "NoStrayHeader: payloads that spell a FAB header are not generated; instances with several candidate headers are counted, not judged."),
+            "C20.junk_glued_to_header_is_ignored: bytes without white space glued in front of a FAB header line are part of its first token, which the shared header parse ignores (so that edit is accepted and read consistently). NoStrayHeader: payloads that spell a FAB header are not generated; instances with several candidate headers are counted, not judged."),
     "C05": ("Lean 4 theorem on the record-level colander model + differential correspondence check",
             "Proof: C05.kept_fields_rule (which fields are written, in which order: Names.select, compared with every real output) and C05.kept_positions (the reported source positions hold those very names), Writers.colander_data (for any distribution and order of boxes in the input files, entry i of the output level header "
             "points at a record that is box i and holds exactly the kept components, any payload type) with recAt_tells/scatter_get (offset "
@@ -86,7 +86,7 @@ CLAIMED = {
             "samples are isclose), lerp_affine/lerp_const, and the in-plane placement theorems (Grid.modelVal_eq_specVal, "
             "Cover.cover_finest); every pixel of every generated slice is compared with the Lean column model and an independent "
             "Python specification, with numpy.empty pre-filled with NaN as a taint for never-written reads.",
-            "Floats: model exact over Rat, implementation compared at rtol 1e-9; numpy.isclose bands are a modelling limit (positions are generated on dyadic offsets, never inside a band)."),
+            "The slicing coordinates (normal, in-plane axes, default / refused / kept position) are the Lean model Slicing.coords (C07.default_position_is_centre, position_outside_refused, position_inside_kept), compared with what the tool accepted or refused for every position tried. Floats: model exact over Rat, implementation compared at rtol 1e-9; numpy.isclose bands are a modelling limit (positions are generated on dyadic offsets, never inside a band)."),
     "C08": ("Lean 4 theorems on the concrete covering-grid model + bit-for-bit correspondence check",
             "Proof: Grid.modelVal_eq_specVal (the repeat/reshape + slice-assign arithmetic puts at each fine cell the stored value of the "
             "coarse cell containing it), Grid.coverAt_last and Cover.cover_finest (after level-ordered overwrites every pixel holds the "
